@@ -75,6 +75,9 @@ impl Engine for NetEngine {
                 if e.contains(SIM_BUDGET_MSG) {
                     // inconclusive, never a violation
                     rep.class("budget-exceeded-inconclusive");
+                    if std::env::var_os("VERIF_NET_DEBUG").is_some() {
+                        eprintln!("BUDGET-CASE {}", crate::common::to_json(case));
+                    }
                     return rep;
                 }
                 if crate::panichook::in_library(&loc) {
@@ -383,6 +386,17 @@ impl Engine for NetEngine {
 }
 
 /// Adds the builder-call-order dimension to a case strategy.
+/// Adds the "serving future kept alive after completion" dimension. Not combined with the accept-burst
+/// leg: there the connection whose accept triggered the signal stays inside the completed future,
+/// un-served and un-dropped, and its HTTP/2 client busy-wakes on a blocked write (h2 crate), which
+/// stalls virtual time.
+pub fn held(s: impl Strategy<Value = NetCase>) -> impl Strategy<Value = NetCase> {
+    (s, any::<bool>()).prop_map(|(mut c, h)| {
+        c.hold_server_future = h;
+        c
+    })
+}
+
 pub fn ordered(s: impl Strategy<Value = NetCase>) -> impl Strategy<Value = NetCase> {
     (s, 0u8..2).prop_map(|(mut c, o)| {
         c.builder_order = o;
@@ -418,6 +432,7 @@ pub fn c01_strategy_up(max_reqs: usize, up_weight: u32) -> impl Strategy<Value =
             timeout_ms: None,
             shutdown_on_accept: None,
             builder_order: 0,
+            hold_server_future: false,
         })
     })
 }
@@ -455,6 +470,7 @@ pub fn c07_strategy(max_reqs: usize) -> impl Strategy<Value = NetCase> {
             timeout_ms: None,
             shutdown_on_accept: None,
             builder_order: 0,
+            hold_server_future: false,
         }})
     })
 }
@@ -483,6 +499,7 @@ pub fn c07_burst_strategy(max_reqs: usize) -> impl Strategy<Value = NetCase> {
             timeout_ms: None,
             shutdown_on_accept: Some(k),
             builder_order: 0,
+            hold_server_future: false,
         })
     })
 }
@@ -508,6 +525,7 @@ pub fn c04_e2e_strategy(max_reqs: usize) -> impl Strategy<Value = NetCase> {
             timeout_ms: None,
             shutdown_on_accept: None,
             builder_order: 0,
+            hold_server_future: false,
         })
     })
 }
@@ -533,6 +551,7 @@ pub fn c15_e2e_strategy(max_reqs: usize) -> impl Strategy<Value = NetCase> {
             timeout_ms: None,
             shutdown_on_accept: None,
             builder_order: 0,
+            hold_server_future: false,
         })
     })
 }
@@ -552,6 +571,7 @@ pub fn c19_strategy(max_reqs: usize) -> impl Strategy<Value = NetCase> {
             timeout_ms: Some(timeout),
             shutdown_on_accept: None,
             builder_order: 0,
+            hold_server_future: false,
         })
     })
 }
@@ -575,6 +595,7 @@ pub fn c09_strategy(max_reqs: usize) -> impl Strategy<Value = NetCase> {
                 timeout_ms: None,
                 shutdown_on_accept: None,
             builder_order: 0,
+            hold_server_future: false,
             })
     })
 }
@@ -651,7 +672,7 @@ pub fn run(ctx: &Ctx) -> i32 {
             )
         }
         "C07" => {
-            total.merge(run_generated(ctx, &engine, "signal-sweep", move || c07_strategy(max_reqs.min(8)), ctx.cases(30_000, 1_500_000), 300));
+            total.merge(run_generated(ctx, &engine, "signal-sweep", move || held(c07_strategy(max_reqs.min(8))), ctx.cases(30_000, 1_500_000), 300));
             // the signal resolves synchronously in the middle of an accept burst (one poll of the server)
             total.merge(run_generated(ctx, &engine, "signal-during-accept-burst", move || c07_burst_strategy(max_reqs.min(8)), ctx.cases(8_000, 400_000), 300));
             (
